@@ -516,6 +516,9 @@ func (m *machine) check(t world.TB) {
 			}
 			if want[d.serial] > 0 {
 				want[d.serial]--
+				if r.result {
+					continue // the statement fixes only how often a result callback runs
+				}
 				if uint64(inv.ref) != d.ref {
 					world.Fail(t, "C14/reference-field/"+d.shape()+suffix, "%v was invoked for %s but with MsgCounterReference %d", r, m.describe(d), inv.ref)
 				}
@@ -747,7 +750,10 @@ func (m *machine) concurrent(t world.TB, specs []spec, cregs []*concReg) {
 					m.nontrivial = true // a repeated matching delivery raced with the registration
 				}
 			default:
-				continue // several invocations or a non-candidate: check classifies it
+				if contains(cand, g[0]) {
+					r.want = append(r.want, dels[g[0]].serial)
+				}
+				continue // several invocations or a non-candidate: check classifies the rest
 			}
 		}
 		if lo > cur {
@@ -826,9 +832,9 @@ func (m *machine) drawSpec(t *rapid.T, label string) spec {
 		src:  rapid.IntRange(0, len(m.feats)-1).Draw(t, label+".src"),
 		dst:  rapid.IntRange(0, len(m.feats)-1).Draw(t, label+".dst"),
 		kind: rapid.SampledFrom([]string{kReply, kReply, kReply, kRejected, kResult0, kResultE}).Draw(t, label+".kind"),
-		ref:  m.drawCounter(t, label+".ref", 6), // 5 and 6 are never registered
+		ref:  m.drawCounter(t, label+".ref", 6), // 5 and 6 are rarely registered (only by a concurrent registration aiming at them)
 	}
-	if rapid.IntRange(0, 19).Draw(t, label+".nofeature") == 0 {
+	if rapid.IntRange(0, 19).Draw(t, label+".nofeature") == 7 {
 		s.dst = -1
 	}
 	srcType := m.defs[s.src].ft
